@@ -120,98 +120,174 @@ func fieldIntroductionsIn(r *Run, field *types.Var, pkgs []*packages.Package) []
 
 func checkKindGuard(r *Run, tp *packages.Package) {
 	info := tp.TypesInfo
-	decls := FuncDecls(tp)
-	// the call site passes KindMatcher.IsExclusive
-	passes := false
-	var target *types.Func
-	for _, fd := range decls {
+	byObj := map[types.Object]*ast.FuncDecl{}
+	var all []*ast.FuncDecl
+	for _, f := range tp.Syntax {
+		for _, d := range f.Decls {
+			if fd, ok := d.(*ast.FuncDecl); ok && fd.Body != nil {
+				all = append(all, fd)
+				if o := info.Defs[fd.Name]; o != nil {
+					byObj[o] = fd
+				}
+			}
+		}
+	}
+	isExclusiveSel := func(e ast.Expr) bool {
+		sel, ok := ast.Unparen(e).(*ast.SelectorExpr)
+		if !ok || sel.Sel.Name != "IsExclusive" {
+			return false
+		}
+		s := info.Selections[sel]
+		return s != nil && namedName(s.Recv()) == "KindMatcher"
+	}
+	// where the matcher's exclusivity is consulted: the function that reads KindMatcher.IsExclusive itself, or the
+	// function that is handed it as an argument (then its parameter stands for it)
+	type site struct {
+		fd    *ast.FuncDecl
+		param types.Object // nil: the selector itself
+	}
+	var sites []site
+	for _, fd := range all {
+		direct := false
+		var stack []ast.Node
 		ast.Inspect(fd.Body, func(n ast.Node) bool {
-			call, ok := n.(*ast.CallExpr)
-			if !ok {
+			if n == nil {
+				stack = stack[:len(stack)-1]
 				return true
 			}
-			for _, a := range call.Args {
-				if sel, ok := ast.Unparen(a).(*ast.SelectorExpr); ok && sel.Sel.Name == "IsExclusive" {
-					if s := info.Selections[sel]; s != nil && namedName(s.Recv()) == "KindMatcher" {
-						passes = true
-						target = calleeOf(info, call)
+			stack = append(stack, n)
+			e, ok := n.(ast.Expr)
+			if !ok || !isExclusiveSel(e) {
+				return true
+			}
+			if len(stack) >= 2 {
+				switch par := stack[len(stack)-2].(type) {
+				case *ast.CallExpr:
+					for i, a := range par.Args {
+						if a == e {
+							if fn := calleeOf(info, par); fn != nil {
+								if hd := byObj[fn.Origin()]; hd != nil && hd.Type.Params != nil {
+									var params []types.Object
+									for _, pl := range hd.Type.Params.List {
+										for _, nm := range pl.Names {
+											params = append(params, info.Defs[nm])
+										}
+									}
+									if i < len(params) {
+										sites = append(sites, site{hd, params[i]})
+										return true
+									}
+								}
+							}
+						}
+					}
+				case *ast.AssignStmt:
+					for _, l := range par.Lhs {
+						if l == e {
+							return true // a write of the field, not a read
+						}
+					}
+				case *ast.KeyValueExpr:
+					if par.Key == e {
+						return true
+					}
+				}
+			}
+			direct = true
+			return true
+		})
+		if direct {
+			sites = append(sites, site{fd, nil})
+		}
+	}
+	if len(sites) == 0 {
+		r.Fail("C01-R3-guard", "kind-matcher:IsExclusive-consulted", token.NoPos, "KindMatcher.IsExclusive is never read by the kind-matching lowering: all-of (n:A:B) and any-of (KindIn) tests translate to the same operator")
+		return
+	}
+	// in one of those functions every use of the contains operator is controlled by a condition that mentions the
+	// exclusivity, and some use of the overlap operator is controlled by the negation of that same condition (an else
+	// arm, or the code after a leaving `if`)
+	var judged *ast.FuncDecl
+	okAny := false
+	for _, st := range sites {
+		fd := st.fd
+		// locals that hold the exclusivity
+		holders := map[types.Object]bool{}
+		if st.param != nil {
+			holders[st.param] = true
+		}
+		mentions := func(e ast.Expr) bool {
+			found := false
+			ast.Inspect(e, func(m ast.Node) bool {
+				if id, isId := m.(*ast.Ident); isId && holders[info.Uses[id]] {
+					found = true
+				}
+				if ex, isExpr := m.(ast.Expr); isExpr && st.param == nil && isExclusiveSel(ex) {
+					found = true
+				}
+				return !found
+			})
+			return found
+		}
+		ast.Inspect(fd.Body, func(n ast.Node) bool {
+			if as, ok := n.(*ast.AssignStmt); ok && as.Tok == token.DEFINE && len(as.Lhs) == len(as.Rhs) {
+				for i, l := range as.Lhs {
+					if id, ok := l.(*ast.Ident); ok && mentions(as.Rhs[i]) {
+						holders[info.Defs[id]] = true
 					}
 				}
 			}
 			return true
 		})
-	}
-	if !passes || target == nil {
-		r.Fail("C01-R3-guard", "kind-matcher:IsExclusive-consulted", token.NoPos, "KindMatcher.IsExclusive is not passed to the kind-matching lowering: all-of (n:A:B) and any-of (KindIn) tests translate to the same operator")
-		return
-	}
-	fd := decls[target.Name()]
-	if fd == nil {
-		r.Undecide("C01-R3: %s not found", target.Name())
-		return
-	}
-	// the bool parameter controls a branch whose two arms use the contains and the overlap operator
-	var param types.Object
-	for _, pl := range fd.Type.Params.List {
-		for _, nm := range pl.Names {
-			if o := info.Defs[nm]; o != nil {
-				if b, ok := o.Type().Underlying().(*types.Basic); ok && b.Kind() == types.Bool {
-					param = o
-				}
+		containsGuards := map[ast.Expr]bool{}
+		containsUses, unguardedContains, overlapOnNegation := 0, 0, false
+		var overlapUses []*ast.Ident
+		ast.Inspect(fd.Body, func(n ast.Node) bool {
+			id, isId := n.(*ast.Ident)
+			if !isId {
+				return true
 			}
-		}
-	}
-	// every use of the contains operator is controlled by a condition that mentions the exclusivity parameter, and some
-	// use of the overlap operator is controlled by the negation of that same condition (an else arm, or the code after a
-	// leaving `if`)
-	mentionsParam := func(e ast.Expr) bool {
-		mentions := false
-		ast.Inspect(e, func(m ast.Node) bool {
-			if id, isId := m.(*ast.Ident); isId && info.Uses[id] == param {
-				mentions = true
+			switch id.Name {
+			case "OperatorPGArrayLHSContainsRHS":
+				containsUses++
+				guarded := false
+				for _, l := range controlConds(fd.Body, id) {
+					if !l.Neg && mentions(l.Expr) {
+						containsGuards[l.Expr] = true
+						guarded = true
+					}
+				}
+				if !guarded {
+					unguardedContains++
+				}
+			case "OperatorPGArrayOverlap":
+				overlapUses = append(overlapUses, id)
 			}
 			return true
 		})
-		return mentions
-	}
-	containsGuards := map[ast.Expr]bool{}
-	containsUses, unguardedContains, overlapOnNegation := 0, 0, false
-	var overlapUses []*ast.Ident
-	ast.Inspect(fd.Body, func(n ast.Node) bool {
-		id, isId := n.(*ast.Ident)
-		if !isId {
-			return true
-		}
-		switch id.Name {
-		case "OperatorPGArrayLHSContainsRHS":
-			containsUses++
-			guarded := false
+		for _, id := range overlapUses {
 			for _, l := range controlConds(fd.Body, id) {
-				if !l.Neg && mentionsParam(l.Expr) {
-					containsGuards[l.Expr] = true
-					guarded = true
+				if l.Neg && containsGuards[l.Expr] {
+					overlapOnNegation = true
 				}
 			}
-			if !guarded {
-				unguardedContains++
-			}
-		case "OperatorPGArrayOverlap":
-			overlapUses = append(overlapUses, id)
 		}
-		return true
-	})
-	for _, id := range overlapUses {
-		for _, l := range controlConds(fd.Body, id) {
-			if l.Neg && containsGuards[l.Expr] {
-				overlapOnNegation = true
-			}
+		if containsUses > 0 || len(overlapUses) > 0 {
+			judged = fd
+		}
+		if containsUses > 0 && unguardedContains == 0 && overlapOnNegation {
+			okAny = true
+			judged = fd
+			break
 		}
 	}
-	ok := containsUses > 0 && unguardedContains == 0 && overlapOnNegation
-	if ok {
-		r.Pass("C01-R3-guard", "kind-matcher:IsExclusive-consulted", fd.Pos(), "exclusive matchers use contains (@>), non-exclusive ones overlap (&&)")
-	} else {
-		r.Fail("C01-R3-guard", "kind-matcher:IsExclusive-consulted", fd.Pos(), "%s no longer selects contains (@>) for exclusive and overlap (&&) for non-exclusive kind tests by its exclusivity parameter", target.Name())
+	switch {
+	case okAny:
+		r.Pass("C01-R3-guard", "kind-matcher:IsExclusive-consulted", judged.Pos(), "exclusive matchers use contains (@>), non-exclusive ones overlap (&&)")
+	case judged != nil:
+		r.Fail("C01-R3-guard", "kind-matcher:IsExclusive-consulted", judged.Pos(), "%s no longer selects contains (@>) for exclusive and overlap (&&) for non-exclusive kind tests by the matcher's exclusivity", funcDeclName(judged))
+	default:
+		r.Fail("C01-R3-guard", "kind-matcher:IsExclusive-consulted", sites[0].fd.Pos(), "the function that reads KindMatcher.IsExclusive (%s) chooses neither the contains (@>) nor the overlap (&&) operator by it", funcDeclName(sites[0].fd))
 	}
 }
 
